@@ -1,333 +1,8 @@
-import CattrsModel.Lemmas.Unfold
+import CattrsModel.Lemmas.ModesAgreeLeaf
 /-!
 # C04 core: the detailed and the fast structure templates accept the same inputs with equal results
 -/
 namespace CattrsModel
-
-theorem stFL_any (w : World) (cfg : Cfg) (xs : List Obj) : stFL w cfg .any xs = some xs := by
-  induction xs with
-  | nil => simp [stFL]
-  | cons x xs ih => simp [stFL, stF, ih]
-
-/-- homogeneous collections -/
-theorem stDL_agree (w : World) (cfg : Cfg) (t : Ty) (xs : List Obj)
-    (ih : ∀ x ∈ xs, Res.toOption (stD w cfg t x) = stF w cfg t x) :
-    ∀ (isSet : Bool) (ix : Nat),
-      match stFL w cfg t xs with
-      | some zs => if !isSet || hashableL w zs then stDL w cfg t isSet ix xs = (zs, [])
-                   else (stDL w cfg t isSet ix xs).2 ≠ []
-      | Option.none => (stDL w cfg t isSet ix xs).2 ≠ [] := by
-  induction xs with
-  | nil => intro isSet ix; simp [stFL, stDL, hashableL]
-  | cons x xs ihx =>
-    intro isSet ix
-    have hx := ih x (by simp)
-    have hrest := ihx (fun y hy => ih y (by simp [hy])) isSet (ix + 1)
-    rw [stFL, stDL]
-    cases hd : stD w cfg t x with
-    | error e =>
-      have : stF w cfg t x = Option.none := by rw [← hx, hd]; rfl
-      simp [this]
-    | ok y =>
-      have hf : stF w cfg t x = some y := by rw [← hx, hd]; rfl
-      simp only [hf]
-      cases hr : stFL w cfg t xs with
-      | none =>
-        simp only [hr] at hrest
-        simp only [Option.map_none]
-        split <;> simp_all
-      | some zs =>
-        simp only [hr] at hrest
-        simp only [Option.map_some]
-        by_cases hs : isSet = true
-        · subst hs
-          simp only [Bool.not_true, Bool.false_or, hashableL, Bool.and_eq_true] at *
-          by_cases hy : hashable w y = true
-          · by_cases hz : hashableL w zs = true
-            · simp_all
-            · simp_all
-          · simp_all
-        · simp_all
-
-/-- heterogeneous tuples: `zip` then the arity test -/
-theorem stDT_agree (w : World) (cfg : Cfg) :
-    ∀ (ts : List Ty) (xs : List Obj),
-      (∀ t ∈ ts, ∀ x ∈ xs, Res.toOption (stD w cfg t x) = stF w cfg t x) →
-      ∀ ix : Nat,
-      match stFT w cfg ts xs with
-      | some zs => stDT w cfg ix ts xs = (zs, []) ∧ xs.length = ts.length
-      | Option.none => (stDT w cfg ix ts xs).2 ≠ [] ∨ xs.length ≠ ts.length := by
-  intro ts
-  induction ts with
-  | nil =>
-    intro xs _ ix
-    cases xs <;> simp [stFT, stDT]
-  | cons t ts iht =>
-    intro xs ih ix
-    cases xs with
-    | nil => simp [stFT, stDT]
-    | cons x xs =>
-      have hx := ih t (by simp) x (by simp)
-      have hrest := iht xs (fun t' ht' y hy => ih t' (by simp [ht']) y (by simp [hy])) (ix + 1)
-      rw [stFT, stDT]
-      cases hd : stD w cfg t x with
-      | error e =>
-        have : stF w cfg t x = Option.none := by rw [← hx, hd]; rfl
-        simp [this]
-      | ok y =>
-        have hf : stF w cfg t x = some y := by rw [← hx, hd]; rfl
-        simp only [hf]
-        cases hr : stFT w cfg ts xs with
-        | none =>
-          simp only [hr] at hrest
-          simp only [Option.map_none]
-          rcases hrest with h | h
-          · left; simpa using h
-          · right; simpa using h
-        | some zs =>
-          simp only [hr] at hrest
-          simp [hrest.1, hrest.2]
-
-/-- mappings: value first, then key, then the insertion -/
-theorem stDKV_agree (w : World) (cfg : Cfg) (kt vt : Ty) (kvs : List (Obj × Obj))
-    (ih : ∀ p ∈ kvs, Res.toOption (stD w cfg kt p.1) = stF w cfg kt p.1 ∧
-                      Res.toOption (stD w cfg vt p.2) = stF w cfg vt p.2) :
-    match stFKV w cfg kt vt kvs with
-    | some r => if hashableL w (keysOf r) then stDKV w cfg kt vt kvs = (r, [])
-                else (stDKV w cfg kt vt kvs).2 ≠ []
-    | Option.none => (stDKV w cfg kt vt kvs).2 ≠ [] := by
-  induction kvs with
-  | nil => simp [stFKV, stDKV, keysOf, hashableL]
-  | cons p rest ihr =>
-    obtain ⟨a, b⟩ := p
-    have hp := ih (a, b) (by simp)
-    have hrest := ihr (fun q hq => ih q (by simp [hq]))
-    rw [stFKV, stDKV]
-    cases hdv : stD w cfg vt b with
-    | error e =>
-      have : stF w cfg vt b = Option.none := by rw [← hp.2, hdv]; rfl
-      cases hk : stF w cfg kt a <;> simp [this]
-    | ok b' =>
-      have hfv : stF w cfg vt b = some b' := by rw [← hp.2, hdv]; rfl
-      cases hdk : stD w cfg kt a with
-      | error e =>
-        have : stF w cfg kt a = Option.none := by rw [← hp.1, hdk]; rfl
-        simp [this]
-      | ok a' =>
-        have hfk : stF w cfg kt a = some a' := by rw [← hp.1, hdk]; rfl
-        simp only [hfk, hfv]
-        cases hr : stFKV w cfg kt vt rest with
-        | none =>
-          simp only [hr] at hrest
-          simp only [Option.map_none]
-          split <;> simp_all
-        | some r =>
-          simp only [hr] at hrest
-          simp only [Option.map_some, keysOf, List.map_cons, hashableL, Bool.and_eq_true]
-          by_cases hy : hashable w a' = true
-          · by_cases hz : hashableL w (keysOf r) = true
-            · simp_all [keysOf]
-            · simp_all [keysOf]
-          · simp_all [keysOf]
-
-/-- per-field handler: untyped fields pass the raw value through -/
-theorem field_agree (w : World) (cfg : Cfg) (f : Field) (x : Obj)
-    (ih : ∀ t, f.ty = some t → Res.toOption (stD w cfg t x) = stF w cfg t x) :
-    Res.toOption (hD w cfg f x) = hF w cfg f x := by
-  unfold hD hF
-  cases hty : f.ty with
-  | none => rfl
-  | some t => exact ih t hty
-
-/-- class fields read by key: the generated detailed hook collects, the interpretive one stops
-at the first error, the fast one too — all three accept the same payloads with the same fields -/
-theorem stDFields_agree (w : World) (cfg : Cfg) (kvs : List (Obj × Obj)) :
-    ∀ fds : List Field,
-    (∀ f ∈ fds, ∀ x, dlookup kvs f.key = some x → ∀ t, f.ty = some t →
-        Res.toOption (stD w cfg t x) = stF w cfg t x) →
-    match stFFields w cfg fds kvs with
-    | some fs => stDFields w cfg fds kvs = (fs, []) ∧ stDFieldsI w cfg fds kvs = .ok fs
-    | Option.none => (stDFields w cfg fds kvs).2 ≠ [] ∧ ∃ e, stDFieldsI w cfg fds kvs = .error e := by
-  intro fds
-  induction fds with
-  | nil => intro _; simp [stFFields, stDFields, stDFieldsI]
-  | cons f fds ihf =>
-    intro ih
-    have hrest := ihf (fun g hg => ih g (by simp [hg]))
-    -- what happens after this field, in the three hooks, given this field contributes `(f.name, v)`
-    have step : ∀ v : Obj,
-        match Option.map (fun r => (f.name, v) :: r) (stFFields w cfg fds kvs) with
-        | some fs => ((f.name, v) :: (stDFields w cfg fds kvs).1, (stDFields w cfg fds kvs).2) = (fs, []) ∧
-                     Except.map (fun r => (f.name, v) :: r) (stDFieldsI w cfg fds kvs) = .ok fs
-        | Option.none => (stDFields w cfg fds kvs).2 ≠ [] ∧
-                     ∃ e, Except.map (fun r => (f.name, v) :: r) (stDFieldsI w cfg fds kvs) = .error e := by
-      intro v
-      cases hr : stFFields w cfg fds kvs with
-      | none =>
-        simp only [hr] at hrest
-        obtain ⟨h1, e, h2⟩ := hrest
-        simp [h1, h2, Except.map]
-      | some fs =>
-        simp only [hr] at hrest
-        simp [hrest.1, hrest.2, Except.map]
-    by_cases hinit : f.init = true
-    · cases hl : dlookup kvs f.key with
-      | none =>
-        rw [stFFields_absent w cfg hinit hl, stDFields_absent w cfg hinit hl, stDFieldsI_absent w cfg hinit hl]
-        cases hd : f.dflt.value? with
-        | none =>
-          refine ⟨by simp, ?_⟩
-          cases hi : stDFieldsI w cfg fds kvs <;> simp [Except.bind]
-        | some d => exact step d
-      | some x =>
-        rw [stFFields_present w cfg hinit hl, stDFields_present w cfg hinit hl, stDFieldsI_present w cfg hinit hl]
-        have hfa := field_agree w cfg f x (ih f (by simp) x hl)
-        cases hh : hD w cfg f x with
-        | error e =>
-          have : hF w cfg f x = Option.none := by rw [← hfa, hh]; rfl
-          simp [this]
-        | ok y =>
-          have hy : hF w cfg f x = some y := by rw [← hfa, hh]; rfl
-          simp only [hy]
-          exact step y
-    · have hinit' : f.init = false := by simpa using hinit
-      rw [stFFields_noinit w cfg hinit', stDFields_noinit w cfg hinit', stDFieldsI_noinit w cfg hinit']
-      cases hd : f.dflt.value? with
-      | none => simp
-      | some d => exact step d
-
-/-- tuple strategy (interpretive in both modes) -/
-theorem stDFieldsT_agree (w : World) (cfg : Cfg) :
-    ∀ (fds : List Field) (xs : List Obj),
-    (∀ f ∈ fds, ∀ x ∈ xs, ∀ t, f.ty = some t → Res.toOption (stD w cfg t x) = stF w cfg t x) →
-    (match stDFieldsT w cfg fds xs with | .ok fs => some fs | .error _ => Option.none) = stFFieldsT w cfg fds xs := by
-  intro fds
-  induction fds with
-  | nil => intro xs _; cases xs <;> simp [stDFieldsT, stFFieldsT]
-  | cons f fds ihf =>
-    intro xs ih
-    cases xs with
-    | nil =>
-      have hrest := ihf [] (fun g hg y hy => by simp at hy)
-      rw [stDFieldsT, stFFieldsT]
-      cases hd : f.dflt.value? with
-      | none => rfl
-      | some d =>
-        simp only []
-        rw [← hrest]
-        cases stDFieldsT w cfg fds [] <;> simp [Except.map]
-    | cons x xs =>
-      have hrest := ihf xs (fun g hg y hy => ih g (by simp [hg]) y (by simp [hy]))
-      rw [stDFieldsT, stFFieldsT]
-      by_cases hinit : f.init = true
-      · simp only [hinit, Bool.not_true, Bool.false_eq_true, if_false]
-        cases hty : f.ty with
-        | none =>
-          simp only []
-          rw [← hrest]
-          cases stDFieldsT w cfg fds xs <;> simp [Except.map]
-        | some t =>
-          simp only []
-          have hx := ih f (by simp) x (by simp) t hty
-          cases hd : stD w cfg t x with
-          | error e =>
-            have : stF w cfg t x = Option.none := by rw [← hx, hd]; rfl
-            simp [this]
-          | ok y =>
-            have hy : stF w cfg t x = some y := by rw [← hx, hd]; rfl
-            simp only [hy]
-            rw [← hrest]
-            cases stDFieldsT w cfg fds xs <;> simp [Except.map]
-      · have hinit' : f.init = false := by simpa using hinit
-        simp only [hinit', Bool.not_false, if_true]
-        cases hd : f.dflt.value? with
-        | none => rfl
-        | some d =>
-          simp only []
-          rw [← hrest]
-          cases stDFieldsT w cfg fds xs <;> simp [Except.map]
-
-/-- TypedDict copy-then-patch -/
-theorem stDTD_agree (w : World) (cfg : Cfg) (kvs : List (Obj × Obj)) :
-    ∀ (fds : List Field) (res : List (Obj × Obj)),
-    (∀ f ∈ fds, ∀ x, dlookup kvs f.key = some x → ∀ t, f.ty = some t →
-        Res.toOption (stD w cfg t x) = stF w cfg t x) →
-    match stFTD w cfg fds kvs res with
-    | some r => stDTD w cfg fds kvs res = (r, [])
-    | Option.none => (stDTD w cfg fds kvs res).2 ≠ [] := by
-  intro fds
-  induction fds with
-  | nil => intro res _; simp [stFTD, stDTD]
-  | cons f fds ihf =>
-    intro res ih
-    have hrest := fun r => ihf r (fun g hg => ih g (by simp [hg]))
-    cases hl : dlookup kvs f.key with
-    | none =>
-      rw [stFTD_absent w cfg hl, stDTD_absent w cfg hl]
-      by_cases hr : f.required = true
-      · simp [hr]
-      · simp only [hr, Bool.false_eq_true, if_false]
-        exact hrest res
-    | some x =>
-      rw [stFTD_present w cfg hl, stDTD_present w cfg hl]
-      have hfa := field_agree w cfg f x (ih f (by simp) x hl)
-      cases hh : hD w cfg f x with
-      | error e =>
-        have : hF w cfg f x = Option.none := by rw [← hfa, hh]; rfl
-        simp [this]
-      | ok y =>
-        have hy : hF w cfg f x = some y := by rw [← hfa, hh]; rfl
-        simp only [hy]
-        exact hrest _
-
-theorem sizeOf_obj_pos (o : Obj) : 0 < sizeOf o := by cases o <;> simp <;> omega
-theorem sizeOf_ty_pos (t : Ty) : 0 < sizeOf t := by cases t <;> simp <;> omega
-
-theorem nonMapping_agree (w : World) (cfg : Cfg) (c : Nat) (o : Obj) :
-    Res.toOption (nonMappingClsGenD w cfg c o) = nonMappingClsGen w cfg c o := by
-  unfold nonMappingClsGenD nonMappingClsGen
-  -- the detailed scan succeeds with no recorded error iff every membership test answers False
-  have key : ∀ fds : List Field,
-      (match nonMappingFieldsD o fds with
-        | some errs => errs.isEmpty
-        | Option.none => false)
-      = fds.all (fun f => f.dflt.value?.isSome && pyContains o f.name == some false) := by
-    intro fds
-    induction fds with
-    | nil => simp [nonMappingFieldsD]
-    | cons f fds ih =>
-      rw [nonMappingFieldsD, List.all_cons]
-      cases hd : f.dflt.value? with
-      | none =>
-        simp only [Option.isSome_none, Bool.false_eq_true, if_false, Bool.false_and]
-        cases nonMappingFieldsD o fds <;> rfl
-      | some d =>
-        simp only [Option.isSome_some, if_true, Bool.true_and]
-        cases hc : pyContains o f.name with
-        | none => rfl
-        | some b =>
-          cases b
-          · simp only []
-            rw [ih]
-            simp
-          · simp only []
-            cases nonMappingFieldsD o fds <;> simp
-  have k := key (initFields (w.fields c))
-  cases hn : nonMappingFieldsD o (initFields (w.fields c)) with
-  | none =>
-    simp only [hn] at k
-    by_cases hf : cfg.forbid = true
-    · simp [hf, Res.toOption]
-    · simp [hf, ← k, Res.toOption]
-  | some errs =>
-    simp only [hn] at k
-    by_cases hf : cfg.forbid = true
-    · simp [hf, Res.toOption]
-    · simp only [hf, Bool.false_eq_true, if_false, ← k]
-      cases he : errs.isEmpty
-      · simp [Res.toOption]
-      · simp only [Bool.not_true, Bool.false_eq_true, if_false, if_true]
-        cases defaultsOf (w.fields c) <;> simp [Res.toOption]
 
 /-- **C04 (core).**  For every type, every input object and every other converter option, the
 detailed template accepts exactly when the fast template accepts, with equal results. -/
@@ -357,7 +32,7 @@ theorem modes_agree_aux (w : World) (cfg : Cfg) :
       | lit vs => simp only [stD, stF]; split <;> rfl
       | coll k t' =>
         cases hit : iterItems o with
-        | none => rw [stD_coll_none w cfg hit, stF_coll_none w cfg hit]; rfl
+        | none => rw [stD_coll_none w cfg hit, stF_coll_none w cfg hit]; exact Leaf.modes_agree w cfg _ _ o
         | some xs =>
           rw [stD_coll_some w cfg hit, stF_coll_some w cfg hit]
           have hlt := iterItems_lt hit
@@ -392,7 +67,7 @@ theorem modes_agree_aux (w : World) (cfg : Cfg) :
                 simp [hL, Res.toOption, mkColl, hs']
       | tupleHet ts =>
         cases hit : iterItems o with
-        | none => rw [stD_tup_none w cfg hit, stF_tup_none w cfg hit]; rfl
+        | none => rw [stD_tup_none w cfg hit, stF_tup_none w cfg hit]; exact Leaf.modes_agree w cfg _ _ o
         | some xs =>
           rw [stD_tup_some w cfg hit, stF_tup_some w cfg hit]
           have hlt := iterItems_lt hit
@@ -451,7 +126,7 @@ theorem modes_agree_aux (w : World) (cfg : Cfg) :
         by_cases htup : cfg.tupleStrat = true
         · rw [stD_cls_tuple w cfg htup, stF_cls_tuple w cfg htup]
           cases hit : iterItems o with
-          | none => rfl
+          | none => exact Leaf.modes_agree w cfg _ _ o
           | some xs =>
             have hlt := iterItems_lt hit
             have hT := stDFieldsT_agree w cfg (w.fields c) xs
@@ -529,7 +204,7 @@ theorem modes_agree_aux (w : World) (cfg : Cfg) :
         | refuseResolve => simp [Res.toOption]
       | nt c =>
         cases hit : iterItems o with
-        | none => rw [stD_nt_none w cfg hit, stF_nt_none w cfg hit]; rfl
+        | none => rw [stD_nt_none w cfg hit, stF_nt_none w cfg hit]; exact Leaf.modes_agree w cfg _ _ o
         | some xs =>
           rw [stD_nt_some w cfg hit, stF_nt_some w cfg hit]
           by_cases hnt : w.isNT c = true
